@@ -263,6 +263,9 @@ func runC16(rc *RunCtx) {
 			rc.Fault("handler:"+r.Mode.String(), handled[r.TID])
 		}
 	}
+	if out.Hang || out.OverStep {
+		rc.Violate("hang", "server_run", "the run did not come to an end: hang=%v (nothing can make progress), overstep=%v (step budget exhausted: something polls without end)", out.Hang, out.OverStep)
+	}
 	if out.HeldBad != "" {
 		rc.Violate("request_changed_after_handling", "handler_kept_request", "%s", out.HeldBad)
 	}
